@@ -40,10 +40,16 @@ meta["confirmed"] = (rc0 == 0 and meta.get("demo_with_change", 0) != 0 and "61 p
 meta["detected_by"] = [r["cmd"].split()[1] for r in meta["ran"] if r["exit"] == 1]
 dst = os.path.join(ROOT, "seeded", f"{prop}-{name}")
 os.makedirs(dst, exist_ok=True)
-shutil.copy(patch, os.path.join(dst, "patch.diff"))
-shutil.copy(demo, os.path.join(dst, "demo.py"))
+same = os.path.abspath(src) == os.path.abspath(dst)
+if not same:
+    shutil.copy(patch, os.path.join(dst, "patch.diff"))
+    shutil.copy(demo, os.path.join(dst, "demo.py"))
 if os.path.exists(os.path.join(src, "notes.md")):
-    shutil.copy(os.path.join(src, "notes.md"), os.path.join(dst, "notes.md"))
+    if not same:
+        shutil.copy(os.path.join(src, "notes.md"), os.path.join(dst, "notes.md"))
     meta["needs_to_manifest"] = open(os.path.join(src, "notes.md")).read()[:1500]
+old = json.load(open(os.path.join(dst, "meta.json"))) if os.path.exists(os.path.join(dst, "meta.json")) else None
+if old is not None:
+    meta["history"] = old.get("history", []) + [{"detected_by": old.get("detected_by"), "ran": old.get("ran")}]
 json.dump(meta, open(os.path.join(dst, "meta.json"), "w"), indent=1)
 print("confirmed" if meta["confirmed"] else "NOT CONFIRMED", "| detected by", meta["detected_by"], "| demo", rc0, "->", meta.get("demo_with_change"), "|", meta.get("tests_with_change"))
